@@ -365,3 +365,139 @@ Proof.
   cbn [rbits]. rewrite E2. cbn [bind app]. eexists. reflexivity.
 Qed.
 
+
+(* ================= UFEP = 000: inheritance of the previous header's optional modes ================= *)
+Definition mpp0_list (h : plus0_header) : list bool := bits_of 3 (q_type h) ++ [false; q_rru h; q_rtype h; false; false; true].
+Lemma mpp0_facts h : 0 <= q_type h < 8 ->
+  let mpp := val_of_bits (mpp0_list h) in
+  Z.land mpp 7 = 1 /\ Z.shiftr (Z.land mpp 448) 6 = q_type h /\
+  tb mpp 5 = false /\ tb mpp 4 = q_rru h /\ tb mpp 3 = q_rtype h.
+Proof.
+  intros Hf.
+  exact (mpp_facts (mkPlus 0 false false false 0 false false false false false false false false false false false
+                           (q_type h) (q_rru h) (q_rtype h) None 0 0 0 0 0 0 0 false 0 0 0 0 None 0 0 0 []) Hf).
+Qed.
+
+Definition inherited (prev : option picture) : Z :=
+  Z.land (match prev with Some p => options p | None => 0 end) opptype_options_parser.
+
+Lemma inherited_bits po s d f ru rt : let inh := Z.land po opptype_options_parser in
+  let opts := Z.lor (flag_if s USE_SPLIT_SCREEN + flag_if d USE_DOCUMENT_CAMERA + flag_if f RELEASE_FULL_PICTURE_FREEZE)
+                (Z.lor inh (flag_if false REFERENCE_PICTURE_RESAMPLING + flag_if ru REDUCED_RESOLUTION_UPDATE + flag_if rt ROUNDING_TYPE_ONE)) in
+  has opts REFERENCE_PICTURE_SELECTION = Z.testbit inh 9 /\ has opts REFERENCE_PICTURE_RESAMPLING = false.
+Proof.
+  cbv zeta.
+  assert (H9 : forall x, has x REFERENCE_PICTURE_SELECTION = Z.testbit x 9) by (intros; apply (has_pow2 _ 9); lia).
+  assert (H13 : forall x, has x REFERENCE_PICTURE_RESAMPLING = Z.testbit x 13) by (intros; apply (has_pow2 _ 13); lia).
+  rewrite H9, H13, !Z.lor_spec.
+  destruct (ptype_flags_bits s d f) as [A1 A2]. destruct (mpp_flags_bits ru rt) as [C1 C2]. cbv zeta in *.
+  rewrite A1, A2, C1, C2. rewrite (Z.land_spec po opptype_options_parser 13).
+  change (Z.testbit opptype_options_parser 13) with false. rewrite andb_false_r. cbn [orb]. split; [apply orb_false_r|reflexivity].
+Qed.
+
+Definition seg0_cpm (h : plus0_header) : list bool := match q_cpm h with None => [false] | Some p => true :: bits_of 2 p end.
+Definition seg0_layer (scal : bool) (h : plus0_header) : list bool := if scal then bits_of 4 (q_elnum h) else [].
+Definition seg0_trpi (rps : bool) (h : plus0_header) : list bool :=
+  if rps then (match q_trp h with None => [false] | Some t => true :: bits_of 10 t end) else [].
+Definition seg0_bci (rps : bool) : list bool := if rps then [false; true] else [].
+Definition seg0_pb (h : plus0_header) : list bool := if q_type h =? 2 then bits_of 3 (q_trb h) ++ bits_of 2 (q_dbquant h) else [].
+
+Lemma enc_plus0_eq scal rps h :
+  enc_plus0 scal rps h = start_code ++ bits_of 5 0 ++ bits_of 8 (q_tr h)
+    ++ bits_of 8 (ptype_hi (q_split h) (q_doccam h) (q_freeze h) 7) ++ bits_of 3 0 ++ mpp0_list h
+    ++ seg0_cpm h ++ seg0_layer scal h ++ seg0_trpi rps h ++ seg0_bci rps ++ bits_of 5 (q_quant h) ++ seg0_pb h ++ enc_pei (q_extra h).
+Proof.
+  unfold enc_plus0. rewrite <- (enc_hi (q_split h) (q_doccam h) (q_freeze h) 7) by lia.
+  unfold seg0_trpi, seg0_bci, mpp0_list, seg0_cpm, seg0_layer, seg0_pb.
+  destruct rps; rewrite <- ?app_assoc; cbn [app]; reflexivity.
+Qed.
+
+Lemma cpm0_seg h tail p0 : (match q_cpm h with None => True | Some p => 0 <= p < 4 end) ->
+  exists p1, decode_cpm_and_psbi (mkReader (seg0_cpm h ++ tail) p0) = Ok (q_cpm h, mkReader tail p1).
+Proof.
+  intros Hc. unfold decode_cpm_and_psbi, seg0_cpm. destruct (q_cpm h) as [p|]; cbn [app]; rewrite read_bit; cbn [bind negb Z.eqb].
+  - rdn. eauto.
+  - eauto.
+Qed.
+Lemma layer0_seg (scal : bool) h tail p0 : 0 <= q_elnum h < 16 ->
+  exists p1,
+   (if scal then let* (l, r) := decode_elnum_rlnum no_followers (mkReader (seg0_layer scal h ++ tail) p0) in Ok (Some l, r)
+    else Ok (None, mkReader (seg0_layer scal h ++ tail) p0))
+   = Ok ((if scal then Some (q_elnum h, None) else None), mkReader tail p1).
+Proof.
+  intros He. unfold seg0_layer. destruct scal; [|cbn [app]; eauto]. unfold decode_elnum_rlnum. cbn [f_ref_layer no_followers]. rdn. eauto.
+Qed.
+Lemma trpi0_seg (rps : bool) h tail p0 : (match q_trp h with None => True | Some t => 0 <= t < 1024 end) ->
+  exists p1,
+   (if rps then decode_trpi (mkReader (seg0_trpi rps h ++ tail) p0) else Ok (None, mkReader (seg0_trpi rps h ++ tail) p0))
+   = Ok ((if rps then q_trp h else None), mkReader tail p1).
+Proof.
+  intros Ht. unfold seg0_trpi. destruct rps; [|cbn [app]; eauto]. unfold decode_trpi.
+  destruct (q_trp h) as [t|]; cbn [app]; rewrite read_bit; cbn [bind Z.eqb Pos.eqb]; [|eauto]. rdn. eauto.
+Qed.
+Lemma bci0_seg (rps : bool) tail p0 :
+  exists p1,
+   (if rps then let* (_, r) := decode_bcm (mkReader (seg0_bci rps ++ tail) p0) in Ok r else Ok (mkReader (seg0_bci rps ++ tail) p0))
+   = Ok (mkReader tail p1).
+Proof.
+  unfold seg0_bci. destruct rps; [|cbn [app]; eauto]. unfold decode_bcm. cbn [app].
+  rewrite read_bit. cbn [bind Z.eqb Pos.eqb]. rewrite read_bit. cbn [bind Z.eqb Pos.eqb]. eauto.
+Qed.
+Lemma pb0_seg h tail p0 : 0 <= q_type h < 8 -> 0 <= q_trb h < 8 -> 0 <= q_dbquant h < 4 ->
+  exists p1,
+   (match plus_type (q_type h) with
+    | PbFrame | ImprovedPbFrame =>
+        let* (trb, r) := read_bits 8 3 (mkReader (seg0_pb h ++ tail) p0) in
+        let* (dbq, r) := read_bits 8 2 r in
+        Ok (Some trb, Some (5 + dbq), r)
+    | _ => Ok (None, None, mkReader (seg0_pb h ++ tail) p0)
+    end)
+   = Ok ((if q_type h =? 2 then Some (q_trb h) else None), (if q_type h =? 2 then Some (5 + q_dbquant h) else None), mkReader tail p1).
+Proof.
+  intros Ht Hb Hd. unfold seg0_pb, plus_type.
+  destruct (small_cases8 (q_type h) Ht) as [-> | [-> | [-> | [-> | [-> | [-> | [-> | ->]]]]]]]; cbn [Z.eqb Pos.eqb app]; eauto.
+  rewrite <- app_assoc. rdn. rdn. eauto.
+Qed.
+
+Theorem plus0_roundtrip h prev scal rest pos :
+  wf_plus0 h ->
+  exists pos', decode_picture (mkOpts false scal) prev (mkReader (enc_plus0 scal (Z.testbit (inherited prev) 9) h ++ rest) pos)
+               = Ok (Some (picture_of_plus0 scal (inherited prev) h), mkReader rest pos').
+Proof.
+  intros (Htr & Hty & Hcpm & Hel & Htrp & Hq & Htrb & Hdbq & He).
+  unfold decode_picture. rewrite enc_plus0_eq. rewrite <- !app_assoc.
+  rewrite start_code_here. cbn [bind]. rewrite skip_start_code. cbn [bind sorenson].
+  rdn. change (negb (0 =? 0)) with false. cbn iota.
+  unfold read_u8. rdn.
+  unfold decode_ptype, read_u8.
+  destruct (hi_facts (q_split h) (q_doccam h) (q_freeze h) 7 ltac:(lia)) as (F1 & F2 & F3 & F4 & F5 & F6).
+  rdn. rewrite F1. change (negb (128 =? 128)) with false. cbn iota. rewrite F5.
+  change (7 =? 0) with false. change (7 =? 7) with true. cbn iota. cbn [bind]. rewrite F2, F3, F4.
+  (* PLUSPTYPE: UFEP = 000, MPPTYPE *)
+  unfold decode_plusptype. rdn.
+  change (negb ((0 =? 0) || (0 =? 1))) with false. change (0 =? 1) with false. cbn iota. cbn [bind].
+  rewrite (read_bits_list 16 9 (mpp0_list h)) by (first [reflexivity | lia]). cbn [bind].
+  destruct (mpp0_facts h Hty) as (M1 & M2 & M5 & M4 & M3). cbv zeta in M1, M2, M5, M4, M3.
+  rewrite M1. change (negb (1 =? 1)) with false. cbn iota. rewrite M2, M5, M4, M3. cbn [bind].
+  match goal with |- context [mkReader (_ ++ ?tail) ?p0] => destruct (cpm0_seg h tail p0 Hcpm) as [p E] end. rewrite E; clear E; cbn [bind].
+  cbn [f_custom_format f_custom_clock f_mv_range f_slice_submode f_rps_mode f_ref_layer no_followers bind scalability].
+  match goal with |- context [mkReader (_ ++ ?tail) ?p0] => destruct (layer0_seg scal h tail p0 Hel) as [p1 E] end. rewrite E; clear E; cbn [bind].
+  fold (inherited prev).
+  destruct (inherited_bits (match prev with Some p => options p | None => 0 end) (q_split h) (q_doccam h) (q_freeze h) (q_rru h) (q_rtype h)) as [R1 R2].
+  cbv zeta in R1, R2. fold (inherited prev) in R1, R2. rewrite R1, R2.
+  match goal with |- context [mkReader (_ ++ ?tail) ?p0] => destruct (trpi0_seg (Z.testbit (inherited prev) 9) h tail p0 Htrp) as [p2 E] end.
+  rewrite E; clear E; cbn [bind].
+  match goal with |- context [mkReader (_ ++ ?tail) ?p0] => destruct (bci0_seg (Z.testbit (inherited prev) 9) tail p0) as [p3 E] end.
+  rewrite E; clear E; cbn [bind].
+  (* no format is transmitted: no resampling can be signalled *)
+  replace (match prev with Some p4 => match format p4 with Some _ => false | None => false end | None => false end) with false
+    by (destruct prev as [p4|]; [destruct (format p4)|]; reflexivity).
+  cbn [orb bind].
+  rdn.
+  fold (plus_type (q_type h)).
+  match goal with |- context [mkReader (_ ++ ?tail) ?p0] => destruct (pb0_seg h tail p0 Hty Htrb Hdbq) as [p5 E] end. rewrite E; clear E; cbn [bind].
+  match goal with |- context [mkReader (_ ++ rest) ?p0] =>
+    destruct (decode_pei_enc (q_extra h) (S (length (enc_pei (q_extra h) ++ rest))) [] rest p0 He) as [pz E2] end.
+  { rewrite app_length. clear. induction (q_extra h); cbn; lia. }
+  cbn [rbits]. rewrite E2. cbn [bind app]. eexists. reflexivity.
+Qed.
